@@ -150,6 +150,24 @@ ARCH_FLUENT = ["with_layer", "layer", "containing_modules", "have_modules_with_n
 
 
 def snapshot_layers(arch) -> dict:
+    """What the user supplied, replayed from the recorded builder calls (so that a definition that is
+    mutated later cannot fool the reference model); falls back to the object's state for architectures
+    built before the monitors were installed."""
+    from .refmodel import automata as A
+
+    tr = [e for e in trace_of(arch) if e[2] == "ok" and e[0] != "with_layer"]
+    if tr:
+        a = A.ArchAutomaton()
+        for name, args, _res in tr:
+            a.feed(name, args)
+        regex_layers = set()
+        cur = None
+        for name, args, _res in tr:
+            if name == "layer":
+                cur = args[0]
+            elif name == "have_modules_with_names_matching":
+                regex_layers.add(cur)
+        return {n: [("regex" if n in regex_layers else "named", m) for m in (ms or [])] for n, ms in a.layers}
     out = {}
     for name, filters in arch._modules_by_layer_name.items():
         out[name] = [("regex" if f.identifier_is_regex else "named", f.identifier) for f in filters]
